@@ -6,19 +6,6 @@ Client requests against group topics: the path session → hub → topic of each
 namespace Tinode.World
 open Tinode.Acs Tinode.Ranges
 
-inductive PrivArg | absent | null | val (s : String)
-  deriving DecidableEq, Repr
-
-def PrivArg.isNull : PrivArg → Bool | .null => true | _ => false
-
-/-- who a request is executed as (dispatch, session.go:480-505) -/
-structure Actor where
-  sid : Sid
-  sessUid : Uid
-  uid : Uid
-  lvl : Level
-  bg : Bool
-
 /-- `as=U:lvl` honoured for root sessions only; otherwise 403 and nothing else happens -/
 def resolveActor (c : Ctx) (s : Sess) (asUser : Option (Uid × String)) : Except Ctx Actor :=
   match asUser with
